@@ -102,10 +102,15 @@ func tableCheck(c *Ctx, rule, key string, fn *ssa.Function, rows []tableRow, err
 }
 
 // T-vi -------------------------------------------------------------------
-func ruleTVi(c *Ctx) {
+func ruleTVi(c *Ctx) { ruleTViOnly(c, nil) }
+
+// ruleTViOnly: nil = all var-int helpers; otherwise only those a property depends on.
+func ruleTViOnly(c *Ctx, only map[string]bool) {
 	u64 := types.Typ[types.Uint64]
+	skip := func(n string) bool { return only != nil && !only[n] }
 	// Length
-	if fn := c.P.Func("", "VarInt", "Length"); fn != nil {
+	if skip("Length") {
+	} else if fn := c.P.Func("", "VarInt", "Length"); fn != nil {
 		paths, err := enumPaths(fn.Blocks[0], nil, nil, 64)
 		var rows []tableRow
 		if err == nil {
@@ -116,7 +121,8 @@ func ruleTVi(c *Ctx) {
 		c.Undecided("T-vi", "VarInt.Length", token.NoPos, "not found")
 	}
 	// UpperLimitInc: growth of the encoding when the value is incremented = Length(v+1) - Length(v), -1 at the maximum
-	if fn := c.P.Func("", "VarInt", "UpperLimitInc"); fn != nil {
+	if skip("UpperLimitInc") {
+	} else if fn := c.P.Func("", "VarInt", "UpperLimitInc"); fn != nil {
 		paths, err := enumPaths(fn.Blocks[0], nil, nil, 64)
 		var rows []tableRow
 		if err == nil {
@@ -137,7 +143,8 @@ func ruleTVi(c *Ctx) {
 		c.Undecided("T-vi", "VarInt.UpperLimitInc", token.NoPos, "not found")
 	}
 	// Bytes: leaf = prefix marker / width / returned length
-	if fn := c.P.Func("", "VarInt", "Bytes"); fn != nil {
+	if skip("Bytes") {
+	} else if fn := c.P.Func("", "VarInt", "Bytes"); fn != nil {
 		paths, err := enumPaths(fn.Blocks[0], nil, nil, 64)
 		var rows []tableRow
 		if err == nil {
@@ -169,7 +176,8 @@ func ruleTVi(c *Ctx) {
 		}
 		return "value=first byte total=1"
 	}
-	if fn := c.P.Func("", "*VarInt", "ReadFrom"); fn != nil {
+	if skip("ReadFrom") {
+	} else if fn := c.P.Func("", "*VarInt", "ReadFrom"); fn != nil {
 		paths, err := enumPaths(fn.Blocks[0], nil, nil, 256)
 		var rows []tableRow
 		if err == nil {
@@ -184,7 +192,8 @@ func ruleTVi(c *Ctx) {
 	} else {
 		c.Undecided("T-vi", "VarInt.ReadFrom", token.NoPos, "not found")
 	}
-	if fn := c.P.Func("", "", "NewVarIntFromBytes"); fn != nil {
+	if skip("NewVarIntFromBytes") {
+	} else if fn := c.P.Func("", "", "NewVarIntFromBytes"); fn != nil {
 		paths, err := enumPaths(fn.Blocks[0], nil, nil, 64)
 		var rows []tableRow
 		if err == nil {
@@ -200,7 +209,8 @@ func ruleTVi(c *Ctx) {
 		c.Undecided("T-vi", "NewVarIntFromBytes", token.NoPos, "not found")
 	}
 	// UpperLimitInc(v) == Length(v+1) - Length(v)  (and -1 at the maximum)
-	if fn := c.P.Func("", "VarInt", "UpperLimitInc"); fn != nil {
+	if skip("UpperLimitInc") {
+	} else if fn := c.P.Func("", "VarInt", "UpperLimitInc"); fn != nil {
 		paths, err := enumPaths(fn.Blocks[0], nil, nil, 64)
 		var rows []tableRow
 		extra := []*big.Int{big.NewInt(252), big.NewInt(65535), big.NewInt(4294967295)}
